@@ -2,7 +2,7 @@
 # usage: tools/wave.sh <ID> [check ids...]  -- confirm the three seeded changes of /tmp/wt_<ID> and try each against the checks
 ID=$1; shift; CHECKS=${*:-$ID}
 for n in 1 2 3; do
-  echo "== $ID/$n: $(head -c 300 /tmp/wt_$ID/_mut/$n/notes.md | head -3 | tr '\n' ' ')"
-  tools/confirm_mut.sh /tmp/wt_$ID $n
-  for c in $CHECKS; do tools/try_mut.sh /tmp/wt_$ID/_mut/$n/patch.diff $c 1; done
+  echo "== $ID/$n: $(head -c 300 ${WTP:-/tmp/wt}_$ID/_mut/$n/notes.md | head -3 | tr '\n' ' ')"
+  tools/confirm_mut.sh ${WTP:-/tmp/wt}_$ID $n
+  for c in $CHECKS; do tools/try_mut.sh ${WTP:-/tmp/wt}_$ID/_mut/$n/patch.diff $c 1; done
 done
